@@ -5,6 +5,17 @@ def sim(focus, count, coop="mix", profile="debug", extra=None, label=None, timeo
     return {"bin": "simrun", "args": ["--focus", focus, "--coop", coop] + (extra or []), "count": count, "profile": profile, "label": label or ("sim-" + focus), "timeout": timeout}
 
 
+def raw(family, count, profile="debug", extra=None, label=None, timeout=1500):
+    return {"bin": "rawrun", "args": ["--family", family] + (extra or []), "count": count, "profile": profile, "label": label or ("raw-" + family), "timeout": timeout}
+
+
+def codec(family, count, profile="debug", extra=None, label=None, timeout=1500, shards=None):
+    j = {"bin": "codecrun", "args": ["--family", family] + (extra or []), "count": count, "profile": profile, "label": label or ("codec-" + family), "timeout": timeout}
+    if shards:
+        j["shards"] = shards
+    return j
+
+
 COMMON_ASSUME = [
     "only executions that were generated are judged (seeded PRNG over programs, configurations, chunkings, schedules)",
     "the independent frame parser / reference HPACK decoder written for the harness are correct (cross-checked against RFC 7541 Appendix C and libnghttp2 in selftest)",
@@ -61,11 +72,12 @@ PLANS = {
         "assumptions": COMMON_ASSUME + ["bounded-progress restatement: inside the closed simulated world a pending operation at quiescence is a non-terminating execution; unbounded fair schedules outside the generated ones are not covered", "cooperative = every reader reads to the end and releases, aborts are explicit resets, no window/limit permanently zero"],
     },
     "C12": {
-        "rule": "wire rule in sim runs: every frame either endpoint emits parses with the independent RFC 9113 parser and its payload is <= the peer's MAX_FRAME_SIZE acknowledged by the emitter. Non-trivial iff a transport write ended inside a frame or a frame had exactly the maximum size; distinct by behaviour fingerprint.",
-        "quick": [sim("fidelity", 8000), sim("settings", 4000)],
-        "thorough": [sim("fidelity", 200000), sim("settings", 100000)],
+        "rule": "codec engine over h2::Codec with a scripted transport: (ser) generated frames of every type the endpoint can emit (DATA 0..2^24-1 bytes, HEADERS/PUSH_PROMISE with blocks up to 200 kB => CONTINUATION, SETTINGS, PING, GOAWAY with up to 16 kB debug data, WINDOW_UPDATE, RST_STREAM; max_send_frame_size changed between frames) flushed through a transport that accepts k bytes per call for scripted k (1, 1-then-Pending, ..., whole), vectored or not, lazy flush: the byte stream must equal the accept-everything run, the independent parser must parse it back to the submitted frames, every payload <= max_send_frame_size, oversize DATA refused with PayloadTooBig; (parse) well-formed frames of all ten types with every flag combination, padding 0..255, priority fields, unknown types, header blocks from the reference encoder with every representation choice, fed under 9 read chunkings incl. one byte at a time with Pending in between: same Frame values under all chunkings and equal to the reference parser; (oversize) a frame announcing more than the advertised limit yields FRAME_SIZE_ERROR after the 9 header bytes, before any body byte is supplied; plus the wire rule in sim runs (every emitted payload <= the peer's acknowledged MAX_FRAME_SIZE). Non-trivial iff a write was partial, a frame had exactly the maximum size or a block used CONTINUATION (ser), always for parse/oversize; distinct by fingerprint of the emitted/parsed frame sequence and chunking.",
+        "quick": [codec("ser", 12000), codec("parse", 8000), codec("oversize", 3000), sim("fidelity", 4000), sim("settings", 2000)],
+        "thorough": [codec("ser", 300000), codec("ser", 20000, extra=["--big-sizes"], label="codec-ser-2^24"), codec("parse", 200000), codec("oversize", 50000), sim("fidelity", 100000), sim("settings", 50000)],
         "min_nontrivial": {"quick": 500, "thorough": 5000},
-        "assumptions": COMMON_ASSUME,
+        "require_stats": {"quick": {"ser.partial_writes": 10000, "ser.blocks_with_continuation": 100, "parse.frames": 10000, "oversize.rejected_before_body": 1000}, "thorough": {}},
+        "assumptions": COMMON_ASSUME + ["sending PRIORITY is unimplemented!() in the codec and unreachable from the endpoint API: excluded on the serialise side"],
     },
     "C14": {
         "rule": "sim engine with user pings and set_initial_window_size from either application while traffic flows: acknowledgement bookkeeping (never more ACKs than SETTINGS written by the peer; equal at quiescence; PING ACK payload sequence is a prefix of the PINGs written), settings applied at the ACK position (C02/C05/C12 oracles are parameterised by the ACK). Non-trivial iff a window setting changed with streams open or a user ping was exchanged; distinct by behaviour fingerprint.",
@@ -104,5 +116,46 @@ PLANS = {
         "min_nontrivial": {"quick": 500, "thorough": 5000},
         "require_stats": {"quick": {"forget_checks": 2000, "idle_close_checked": 2000, "second_wave_completed": 500}, "thorough": {}},
         "assumptions": COMMON_ASSUME,
+    },
+    "C08": {
+        "rule": "raw engine: one h2 endpoint (either role, application programs running within documented preconditions) fed hostile input by the scripted peer at PRNG-drawn fragmentation: (fuzz) grammar-generated frames of every type in arbitrary order/state with odd header lists, mutated legal transcripts (bit flips, length/type/id edits, truncation, duplication, splicing), extremes (600-entry SETTINGS, WINDOW_UPDATE storms, 400-field blocks split into 100-byte CONTINUATIONs, 255-byte padding, 16 MiB length announcements, PING bursts), random bytes; (catalogue) 63 RFC violation / legal-but-unusual items x 6 stream state classes after a legal prefix; (headers) malformed/well-formed messages. Oracles: catch_unwind around every poll and drop (any panic out of h2), self-wake busy-loop detector, connection polls per input byte bounded, quiescence + every operation resolved + connection future completed after EOF. Every execution is non-trivial (the input differs from anything a conforming peer sends or is a violation by construction); distinct by behaviour fingerprint.",
+        "quick": [raw("fuzz", 12000), raw("catalogue", 3000), raw("headers", 3000), sim("general", 2000, coop="no")],
+        "thorough": [raw("fuzz", 400000), raw("catalogue", 80000), raw("headers", 80000), sim("general", 50000, coop="no"), raw("fuzz", 60000, profile="release", label="raw-fuzz-release")],
+        "min_nontrivial": {"quick": 1000, "thorough": 10000},
+        "require_stats": {"quick": {"fuzz.class.grammar": 1000, "fuzz.class.mutation": 1000, "fuzz.class.extremes": 500, "fuzz.class.random": 500, "catalogue.applied": 500}, "thorough": {}},
+        "assumptions": COMMON_ASSUME + ["the test-only drop assertions of h2's `unstable` feature (Store::drop slab.is_empty, Counts::drop !has_streams) are triaged as notes, not as panics", "debug profile (debug_assert and overflow checks on); the thorough tier repeats a slice in release"],
+    },
+    "C09": {
+        "rule": "raw engine, family catalogue: E = h2 server with a witness stream in flight; a target stream is driven into a state class (idle, open, half-closed remote, closed clean, reset by E, reset by peer; the class is re-verified post hoc from E's API log and wire output, unverified cases are discarded), then one of 63 catalogue items is injected, then a probe request and the witness must still be served. Reference reaction table: MUST-connection-error => GOAWAY with non-zero code; stream error => RST_STREAM there or stronger, other streams and later requests unaffected; legal item => no error GOAWAY, no RST_STREAM on streams the item did not end, service continues; nothing of a violating frame reaches the application. Family headers supplies the converse for HTTP messages (well-formed => delivered). Non-trivial iff the item was applied in its verified state class; distinct by behaviour fingerprint; the (item x state) cells hit are listed in the evidence.",
+        "quick": [raw("catalogue", 14000), raw("headers", 4000)],
+        "thorough": [raw("catalogue", 400000), raw("headers", 100000)],
+        "min_nontrivial": {"quick": 1000, "thorough": 10000},
+        "require_stats": {"quick": {"catalogue.applied": 3000, "reaction.conn_error": 1000, "reaction.stream_error": 100, "reaction.tolerated": 500}, "thorough": {}},
+        "assumptions": COMMON_ASSUME + ["the reaction table is hand-written from RFC 9113 (trusted base); where the RFC leaves a choice every permitted reaction is accepted", "tolerance of frames arriving after E reset a stream is demanded only within E's configured reset memory (reset_stream_duration / max_concurrent_reset_streams > 0)", "E = h2 client is covered for the PUSH_PROMISE-after-reset race by the sim engine and by the headers family, not by the catalogue"],
+    },
+    "C13": {
+        "rule": "raw engine, family headers: header lists generated from a grammar (each pseudo-header present/absent/duplicated/empty/unknown/misplaced/wrong direction, upper-case names, the five connection-specific fields, TE variants, content-length absent/equal/short/long/conflicting/non-numeric) in five message kinds (request to an h2 server; response, interim response, trailers, pushed request to an h2 client) followed by DATA matching or contradicting the declared length. Reference predicate = the MUST rules the property lists. malformed => never returned Ok by accept / ResponseFuture / poll_informational / poll_trailers / PushPromises and the stream fails; length mismatch => body ends in Err, never a clean end. Send side: sim engine wire rule (every message E emits is well-formed as seen by the independent parser). Non-trivial iff the reference predicate says malformed; distinct by behaviour fingerprint.",
+        "quick": [raw("headers", 16000)],
+        "thorough": [raw("headers", 400000)],
+        "min_nontrivial": {"quick": 1000, "thorough": 10000},
+        "require_stats": {"quick": {"headers.judged": 10000, "headers.kind.Request.malformed": 1000, "headers.kind.Response.malformed": 300, "headers.kind.Trailers.malformed": 100, "headers.kind.Interim.malformed": 100, "headers.kind.PushedRequest.malformed": 100}, "thorough": {}},
+        "assumptions": COMMON_ASSUME + ["only the rules the property names are judged (RFC 9113 8.1.1, 8.2, 8.2.1, 8.2.2, 8.3, 8.3.1, 8.5); content-length is judged on messages that may carry content"],
+    },
+    "C10": {
+        "rule": "codec engine, family ser-hpack: histories of 1-60 header blocks (requests with every method kind, responses, trailers, pushes; field pool with static-table names and values, colliding custom names, repeated names with few distinct values, values from empty to 6 kB) sent through the real send path (h2::frame::Headers / PushPromise buffered into h2::Codec, so CONTINUATION split points are h2's own), with peer SETTINGS_HEADER_TABLE_SIZE events between blocks drawn from {0,1,31,32,33,64,100,150,200,4096,4097,65536,2^32-1} (applied, like h2 does, only when the codec is ready) and max_frame_size changes. The emitted bytes are reassembled by the independent frame parser and decoded by (i) the reference decoder in strict mode (size update <= allowed, a reduction signalled at the start of the next block with the minimum first, mirror table <= allowed), (ii) nghttp2's inflater, (iii) h2's own decoder through a second Codec: all must return the submitted fields. Family huffman: h2's Huffman encoder output equals the RFC code. Plus the sim wire rule (every block either endpoint emits decodes; size updates <= the peer's acknowledged table size). Non-trivial iff an eviction or a table-size change occurred in the history; distinct by fingerprint of the emitted frame sequence.",
+        "quick": [codec("ser-hpack", 12000), codec("huffman", 2000), sim("settings", 3000)],
+        "thorough": [codec("ser-hpack", 400000), codec("huffman", 50000), sim("settings", 100000), sim("fidelity", 100000)],
+        "min_nontrivial": {"quick": 1000, "thorough": 10000},
+        "require_stats": {"quick": {"hpack.evictions": 10000, "hpack.table_size_changes": 3000, "hpack.size_updates_emitted": 1000, "nghttp2.blocks_inflated": 50000, "ser.blocks_with_continuation": 100}, "thorough": {}},
+        "assumptions": COMMON_ASSUME + ["cross-name field order is compared as HeaderMap iterates it but only per-name value sequences are a verdict", "pseudo-header fields cannot be built for a direct Encoder call from outside the crate (BytesStr constructors are crate-private): they are covered through the Codec path only"],
+    },
+    "C11": {
+        "rule": "codec engine, family hpackdec: h2::verif::Decoder (hook H1) driven like framed_read.rs does, against the reference decoder written from RFC 7541 (Appendix A table, Appendix B text walked bit by bit). Histories of 1-25 blocks built by the reference encoder with every representation choice per field (indexed / literal with, without, never indexed; indexed or literal name; Huffman or raw; padded integers; legal size updates at block start), then one defect: index 0, index past the table, size update after a field, size update above the limit, EOS / over-long Huffman padding, integer overflow, truncation, bit flip. Oracles: soundness (h2 Ok => reference Ok with the same list), completeness on the safe subset, table size == reference and <= limit after every block, split invariance (same block whole vs every split offset up to 64 bytes / 16 sampled, 2- and 3-way, identical history). Families huffman / huffman-exhaustive: every byte string of length <= 2 (quick) / <= 3 (thorough, 16.8 M) plus sampled longer ones decoded by h2 and by the reference. Non-trivial iff the block exercises a dynamic-table reference, a Huffman string, a multi-octet integer, a size update, or is invalid; distinct by fingerprint of the per-block verdict sequence.",
+        "quick": [codec("hpackdec", 60000), codec("huffman", 4000), codec("huffman-exhaustive", 65808, extra=["--max-len", "2"], label="codec-huffman-exhaustive<=2")],
+        "thorough": [codec("hpackdec", 400000), codec("huffman", 50000), codec("huffman-exhaustive", 16843024, extra=["--max-len", "3"], label="codec-huffman-exhaustive<=3")],
+        "min_nontrivial": {"quick": 1000, "thorough": 10000},
+        "require_stats": {"quick": {"hpackdec.blocks_agreed_ok": 100000, "hpackdec.blocks_agreed_err": 5000, "hpackdec.splits_tried": 500000, "huffman.exhaustive_strings": 65793}, "thorough": {"huffman.exhaustive_strings": 16843009}},
+        "exhaustive_note": "Huffman decoding: all byte strings of length <= 2 (quick) / <= 3 (thorough) are enumerated completely; everything else is sampled",
+        "assumptions": COMMON_ASSUME + ["completeness is judged only inside h2's documented implementation limits (minimal integers, lower-case token names, HeaderValue-admissible values, the six known pseudo names)"],
     },
 }
